@@ -10,6 +10,7 @@ import (
 	"github.com/olric-data/olric/internal/kvstore"
 	"github.com/olric-data/olric/internal/kvstore/table"
 	"github.com/olric-data/olric/pkg/storage"
+	"github.com/vmihailenco/msgpack/v5"
 )
 
 // VerifJanitor runs one pass of the empty-fragment janitor.
@@ -151,4 +152,25 @@ func (s *Service) VerifDMapNames() []string {
 	}
 	sort.Strings(out)
 	return out
+}
+
+// VerifPackFragment builds the payload of an internal.dmap.movefragment command.
+func VerifPackFragment(partID uint64, kind partitions.Kind, name string, payload []byte) ([]byte, error) {
+	return msgpack.Marshal(&fragmentPack{PartID: partID, Kind: kind, Name: name, Payload: payload})
+}
+
+// VerifRemove deletes an entry directly from a fragment of this member.
+func (s *Service) VerifRemove(kind partitions.Kind, dmap string, hkey uint64) {
+	dm, err := s.getOrCreateDMap(dmap)
+	if err != nil {
+		return
+	}
+	part := dm.getPartitionByHKey(hkey, kind)
+	f, err := dm.loadFragment(part)
+	if err != nil {
+		return
+	}
+	f.Lock()
+	defer f.Unlock()
+	_ = f.storage.Delete(hkey)
 }
